@@ -39,7 +39,9 @@ ASSUMPTIONS = ['bit_in, direction and every prioritized_mux select are 1-bit wir
                'pattern characters are ASCII; field letters are valid Python identifiers',
                'MultiSelector.default is called at most once; dictionary keys are ints or "default"',
                'integer new values / option values are non-negative',
-               'wire identity in sparse_mux (_is_equivalent) is modelled by tags supplied by the harness']
+               'wire identity in sparse_mux (_is_equivalent) is modelled by tags supplied by the harness',
+               'wire_struct/wire_matrix components are driven by ints, WireVectors of any width (<<= truncates '
+               'or zero-extends) or slices; Input/Register component types are not exercised']
 
 
 # ------------------------------------------------------------------ sources
@@ -1068,7 +1070,7 @@ def gen_struct(rng, tier):
             out.append({'fam': 'struct_slice', 'ws': [1], 'sch': s, 'v': ('I', rng.randrange(0, 1 << bw)),
                         'depth': sch_depth(s)})
         kids = sch_kids(s)
-        if len(kids) >= 2:
+        if len(kids) >= 2 or (s[0] == 'S' and len(kids) == 1):
             vals = []
             off = 0
             for i, k in enumerate(kids):
@@ -1079,6 +1081,66 @@ def gen_struct(rng, tier):
                     vals.append(('S', 0, off, off + kb))
                 off += kb
             out.append({'fam': 'struct_concat', 'ws': [bw], 'sch': s, 'vals': vals, 'depth': sch_depth(s)})
+    return out
+
+
+MISMATCH_SCHEMAS = [
+    ('S', [('L', 3), ('L', 2)]),                                   # flat
+    ('S', [('L', 1), ('L', 2), ('L', 1)]),
+    ('S', [('L', 2)]),                                             # single field, still concatenation mode
+    ('S', [('S', [('L', 1), ('L', 2)]), ('L', 2)]),                # nested, depth 2
+    ('S', [('M', ('L', 1), 2), ('L', 2)]),
+    ('M', ('L', 2), 3),                                            # wire_matrix(values=[...])
+    ('M', ('S', [('L', 1), ('L', 2)]), 2),
+    ('S', [('S', [('M', ('L', 1), 2), ('L', 1)]), ('L', 2)]),      # depth 3
+    ('M', ('M', ('L', 1), 2), 2),
+    ('S', [('L', 1), ('M', ('S', [('L', 1), ('L', 1)]), 2)]),
+]
+DELTAS = [-2, -1, 0, 1, 3]
+
+
+def mismatch_cfg(s, deltas):
+    """concatenation mode, component i driven by a plain WireVector (a slice of the pool Input) of
+    width field_width + deltas[i] (clamped to >= 1): `component <<= driver` truncates / zero-extends"""
+    kids = sch_kids(s)
+    vals = []
+    off = 0
+    for k, d in zip(kids, deltas):
+        dw = max(1, sch_bw(k) + d)
+        vals.append(('S', 0, off, off + dw))
+        off += dw
+    return {'fam': 'struct_concat', 'ws': [off], 'sch': s, 'vals': vals, 'depth': sch_depth(s),
+            'driver_delta': [max(1, sch_bw(k) + d) - sch_bw(k) for k, d in zip(kids, deltas)]}
+
+
+def gen_struct_mismatch(rng, tier):
+    out = []
+    for s in MISMATCH_SCHEMAS:
+        kids = sch_kids(s)
+        if s[0] == 'M' and len(kids) < 2:
+            continue
+        for j in range(len(kids)):                 # one component off by d, the others exact
+            for d in DELTAS:
+                if d == 0 or max(1, sch_bw(kids[j]) + d) == sch_bw(kids[j]):
+                    continue
+                out.append(mismatch_cfg(s, [d if i == j else 0 for i in range(len(kids))]))
+        for rep in range(2 if tier == 'quick' else 8):   # every component off
+            ds = [rng.choice(DELTAS) for _ in kids]
+            c = mismatch_cfg(s, ds)
+            if sum(c['ws']) <= 12 and any(c['driver_delta']):
+                out.append(c)
+    seen = set()
+    for rep in range(60 if tier == 'quick' else 600):     # random schemas, random deltas
+        s = rand_schema(rng, 6, 3)
+        kids = sch_kids(s)
+        if s[0] == 'L' or (s[0] == 'M' and len(kids) < 2):
+            continue
+        c = mismatch_cfg(s, [rng.choice(DELTAS) for _ in kids])
+        key = json.dumps(c, sort_keys=True)
+        if key in seen or sum(c['ws']) > 11 or not any(c['driver_delta']):
+            continue
+        seen.add(key)
+        out.append(c)
     return out
 
 
@@ -1095,7 +1157,8 @@ def gen_wrap(rng, tier):
 GENS = [('select', gen_select), ('mux', gen_mux), ('prioritized_mux', gen_pmux), ('sparse_mux', gen_sparse),
         ('enum_mux', gen_enum), ('MultiSelector', gen_multi), ('demux', gen_demux), ('barrel_shifter', gen_barrel),
         ('bitfield_update', gen_bfu), ('bitfield_update_set', gen_bfus), ('match_bitpattern', gen_mbp),
-        ('chop', gen_chop), ('partition_wire', gen_part), ('struct', gen_struct), ('wrapped', gen_wrap)]
+        ('chop', gen_chop), ('partition_wire', gen_part), ('struct', gen_struct),
+        ('struct_mismatch', gen_struct_mismatch), ('wrapped', gen_wrap)]
 
 
 # ------------------------------------------------------------------ driver
@@ -1184,6 +1247,9 @@ def run_configs(ctx, cfgs):
         ctx.count('pool_bits', sum(c['ws']))
         if 'depth' in c:
             ctx.count('schema_depth', c['depth'])
+        if 'driver_delta' in c:
+            for d in c['driver_delta']:
+                ctx.count('concat_driver_width_minus_field_width', d)
         rep = {'config': c, 'seed': ctx.seed, 'tier': ctx.tier}
         # search: implementation vs documentation oracle
         if r['bad'] is not None:
